@@ -173,6 +173,10 @@ def fill(ctx):
             return True
         return tuple(e.path) == (("item", P("tree_id")),) and old == atom(("getattr", node, cnt_attr))
     muts0 = [e for e in tr.of("localmut") if is_count_mut(e)]
+    # the counts are written by fill itself (directly, through an alias, or in a helper function that receives the node); a method
+    # called ON the node is not followed (the evaluator models the attributes of one receiver)
+    ctx.anchor(site, "fill writes the per-id counts itself", bool(muts0),
+               "no store into node.num_samples_in_compared_subtrees[tree_id] found in fill (a method of the node may be doing it)")
     # a count computed into one local for both cases (`points = n if leaf else a + b`) is split into its cases
     from ..evalr import virtual
     muts = []
